@@ -2,9 +2,24 @@
 from ..core import *
 from ..e1 import *
 from ..report import Obl
+from ..logic import const_of
 from .. import build
 
 VERSION_REPS = [0, 1, 2, 3, 4]       # representatives: every comparison of `version` is against a constant <= 3
+
+
+def role_param(fn, role):
+    """parameter of a WOPN reader / writer / size function by role (type and order, not name): 'version' = the first uint16_t
+    parameter, 'force_gm' = the second, 'has_sounding_delays' = the uint8_t flag"""
+    u16 = [p for p in fn.params if not p['t'].get('p') and p['t'].get('w') == 16 and p['t'].get('u')]
+    u8 = [p for p in fn.params if not p['t'].get('p') and p['t'].get('w') == 8 and p['t'].get('u')]
+    if role == 'version':
+        return u16[0] if u16 else None
+    if role == 'force_gm':
+        return u16[1] if len(u16) > 1 else None
+    if role == 'has_sounding_delays':
+        return u8[0] if u8 else None
+    return None
 
 
 def run_e1(facts, fname, rule, forks_entry=None, forks_assign=None):
@@ -26,11 +41,37 @@ def run_e1(facts, fname, rule, forks_entry=None, forks_assign=None):
                         cursor_id = v['id']
     if cursor_id is None:
         raise build.AnalysisBroken('%s: cursor local (uint8_t* initialised from the memory parameter) not found' % fname)
-    eng = Engine(facts, 'count', forks=dict(forks_assign or {}))
+    # '@version' stands for the local that holds the format version: read from the file through a 16-bit codec and then compared
+    # with small constants (its name is the author's business)
+    fa = dict(forks_assign or {})
+    ver_name = None
+    if '@version' in fa:
+        cmp_count = {}
+        read_vars = set()
+        for x in walk(fn.tree):
+            if not isinstance(x, dict):
+                continue
+            ap = assign_parts_raw(x)
+            if ap and strip(ap[0]).get('k') == 'DeclRefExpr' and not strip(ap[0]).get('parm') and 'callee' in strip(ap[1]) and short(callee_name(strip(ap[1]))).startswith('toUint16'):
+                read_vars.add(strip(ap[0])['n'])
+            if x.get('k') == 'DeclStmt':
+                for v in x.get('decls', []):
+                    if v.get('init') is not None and 'callee' in strip(v['init']) and short(callee_name(strip(v['init']))).startswith('toUint16'):
+                        read_vars.add(v['n'])
+            if x.get('k') == 'BinaryOperator' and x.get('op') in ('<', '<=', '>', '>=', '==', '!='):
+                for a, b in ((x['l'], x['r']), (x['r'], x['l'])):
+                    if strip(a).get('k') == 'DeclRefExpr' and const_of(b) is not None and 0 <= const_of(b) <= 8:
+                        cmp_count[strip(a)['n']] = cmp_count.get(strip(a)['n'], 0) + 1
+        cands = sorted((n for n in read_vars if cmp_count.get(n, 0) >= 2), key=lambda n: -cmp_count[n])
+        if not cands:
+            raise build.AnalysisBroken('%s: the local holding the format version (16-bit read compared with small constants) not found' % fname)
+        fa[short(cands[0])] = fa.pop('@version')
+        ver_name = short(cands[0])
+    eng = Engine(facts, 'count', forks=fa)
     eng.setup(fn, cursor_id, count_id=cnt[0]['id'])
     states = [State(Poly.const(0))]
     for pname, vals in (forks_entry or {}).items():
-        p = [p for p in fn.params if p['n'] == pname]
+        p = [role_param(fn, pname)] if role_param(fn, pname) else [p for p in fn.params if p['n'] == pname]
         if not p:
             raise build.AnalysisBroken('%s: parameter %s not found' % (fname, pname))
         nxt = []
@@ -39,11 +80,22 @@ def run_e1(facts, fname, rule, forks_entry=None, forks_assign=None):
                 s1 = s0.copy(); s1.env[('v', p[0]['id'])] = Poly.const(v); s1.ctx[pname] = v
                 nxt.append(s1)
         states = nxt
-        eng.forks.setdefault(pname, vals)
+        eng.forks.setdefault(p[0]['n'], vals)
     exits_all = []
     for s0 in states:
         f, ex = eng.run_body(fn.tree, s0)
         exits_all += ex
+    if ver_name and ver_name != 'version':
+        # the case contexts are keyed by the role, not by the local's name
+        for e_, st_ in eng.returns:
+            if ver_name in st_.ctx:
+                st_.ctx['version'] = st_.ctx.pop(ver_name)
+        for o in eng.obl:
+            if ver_name in o.ctx:
+                o.ctx['version'] = o.ctx.pop(ver_name)
+        for kind_, st_ in exits_all:
+            if ver_name in st_.ctx:
+                st_.ctx['version'] = st_.ctx.pop(ver_name)
     obls = []
     seen = {}
     for o in eng.obl:
